@@ -165,7 +165,7 @@ def run(ctx):
     # listed findings: a dedicated program that must still fail
     if 'sizeof-type' in known and not ctx.only:
         kp = batch('known_sizeof', ['1 + sizeof(int)', 'a * sizeof(long)'])
-        kq, _ = O.make_queries(ctx, [kp], ['Serial'], harness)
+        kq, _ = O.make_queries(ctx, [kp], ['Serial'], harness, suffix='_known')
         for q in kq:
             q.name += '/known:sizeof-type'; q.expect = 'fail'; q.known = 'key=sizeof-type ' + known['sizeof-type']
         qs += kq
@@ -191,7 +191,7 @@ def run(ctx):
                 ctx.known.append(q.known)
             else:
                 slot += 1
-                d = os.path.join(C.VERIF, 'replay', 'C15_%d' % slot); os.makedirs(d, exist_ok=True)
+                d = os.path.join(C.REPLAY_DIR, 'C15_%d' % slot); os.makedirs(d, exist_ok=True)
                 import json, shutil
                 shutil.copy(q.cfiles[0], os.path.join(d, 'harness_at_detection.c'))
                 open(os.path.join(d, 'values.txt'), 'w').write('')
@@ -230,7 +230,7 @@ def run(ctx):
                         'structural identity of the re-parsed tree is observed as textual identity of its print (concrete side check, not the deciding step)']
     for fb in fix_bad:
         slot += 1
-        d = os.path.join(C.VERIF, 'replay', 'C15_%d' % slot); os.makedirs(d, exist_ok=True)
+        d = os.path.join(C.REPLAY_DIR, 'C15_%d' % slot); os.makedirs(d, exist_ok=True)
         import json
         open(os.path.join(d, 'README.txt'), 'w').write('printing the printed text again gives different text (the printed program does not re-parse to the same tree)\nfirst print:\n%s\nsecond print:\n%s\n' % (fb['first'], fb['second']))
         pr = [p for p in progs if p.name == fb['program']][0]
